@@ -945,6 +945,9 @@ caption_command(vbi_decoder *vbi, struct caption *cc,
 				ch->row1 = row1;
 				erase_memory(cc, ch, ch->hidden);
 				erase_memory(cc, ch, ch->hidden ^ 1);
+
+				/* The displayed page changed. */
+				clear(ch->pg + (ch->hidden ^ 1));
 			}
 
 			set_cursor(ch, 1, ch->row1 + ch->roll - 1);
@@ -1061,6 +1064,9 @@ caption_command(vbi_decoder *vbi, struct caption *cc,
 
 			erase_memory(cc, ch, ch->hidden);
 			erase_memory(cc, ch, ch->hidden ^ 1);
+
+			/* The displayed page changed. */
+			clear(ch->pg + (ch->hidden ^ 1));
 
 			ch->mode = MODE_ROLL_UP;
 			ch->roll = roll;
